@@ -68,6 +68,29 @@ CHAIN_ALIAS = {
 }
 
 
+def chain_subclauses(feat):
+    """The hop-level clauses a chain failure corresponds to, as narrowly as the observation allows: a return entry that
+    appeared or disappeared is RetKept.present only; otherwise the components of the return entry that differ from the
+    original; a default is DefaultFill iff the original had none."""
+    cl = feat["cl"]
+    if cl == "Chain.Ret":
+        r, o = feat.get("ret"), feat.get("obs")
+        if r and isinstance(o, list) and len(o) == 4:
+            if bool(o[0]) != bool(r[1]):
+                return ("RetKept.present",)
+            subs = []
+            if o[1] != r[2]:
+                subs.append("RetKept.typ")
+            if o[2] != r[3]:
+                subs += ["RetKept.base", "RetKept.ann"]
+            if o[3] != r[6]:
+                subs.append("RetKept.def")
+            return tuple(subs) or CHAIN_ALIAS[cl]
+    if cl == "Chain.Def" and feat.get("s"):
+        return ("DefaultFill",) if feat["s"][4] == "absent" else ("DefaultKept",)
+    return CHAIN_ALIAS.get(cl, ())
+
+
 def chain_matches(p, feat):
     """C05 chain clauses compare with the *original* description: a hop-level finding explains a chain failure when one of
     the kinds on the path is a kind the finding is about, the clause is the chain counterpart of one of its clauses, and its
@@ -76,8 +99,22 @@ def chain_matches(p, feat):
         return bool(feat.get("prior_fail"))
     if p.get("corrupt_before"):
         return False
-    if feat["cl"] not in p["clauses"] and not any(c in p["clauses"] for c in CHAIN_ALIAS.get(feat["cl"], ())):
+    if feat["cl"] not in p["clauses"] and not any(c in p["clauses"] for c in chain_subclauses(feat)):
         return False
+    if "obs" in p and feat["cl"] not in p["clauses"]:
+        # the outcome transfers too: the first hop that deviates from the original shows the defect's own outcome (later hops
+        # of the same chain are follow-ups of that failure)
+        subs = [c for c in chain_subclauses(feat) if c in p["clauses"]]
+        o = feat.get("obs")
+        if feat["cl"] == "Chain.Ret" and isinstance(o, list) and len(o) == 4:
+            comp = {"RetKept.present": o[0], "RetKept.typ": o[1], "RetKept.base": o[2], "RetKept.def": o[3]}
+            seen = [comp[c] for c in subs if c in comp]
+        elif feat["cl"] == "Chain.Prose" and isinstance(o, list) and len(o) == 2:
+            seen = [o[0] if c == "ProseKept.base" else o[1] for c in subs]
+        else:
+            seen = [o]
+        if seen and not any(_m(p["obs"], x) if not isinstance(x, list) else (x in p["obs"]) for x in seen):
+            return False
     k = p.get("when", {}).get("k")
     if k is not None:
         ks = k if isinstance(k, list) else [k]
